@@ -353,6 +353,13 @@ class IntroVisitor(ast.NodeVisitor):
             self.inters.append(fi_or_p)
         # str is the underlying type of a DDSPath
         if fi_or_p is not None and isinstance(fi_or_p, str):
+            if fi_or_p not in self._gctx.resolved_references:
+                # Neither in the store nor produced by a call that comes before this one.
+                raise DDSException(
+                    f"The path {fi_or_p} is loaded before the call that produces it in the same "
+                    f"evaluation. A path must be produced before it is loaded. "
+                    f"Call stack: {' '.join([str(p) for p in self._call_stack])}"
+                )
             self.load_paths.append(fi_or_p)
         self.generic_visit(node)
 
